@@ -402,9 +402,9 @@ class Array:
         """Private function to format input arrays correctly for append.
 
         """
-        if hasattr(array, '__len__'):
+        if hasattr(array, '__len__') and np.ndim(array) > 0:
             array = np.asarray(array, dtype=self._dtype)
-        else:
+        else:  # a number, or a zero-dimensional array
             array = np.array(array, dtype=self._dtype, ndmin=1)
         if not array.shape[1:] == self.shape[1:]:
             raise TypeError(
